@@ -19,6 +19,18 @@ def _h(b):
     return hashlib.sha256(b).hexdigest()[:20]
 
 
+def stable_key(k):
+    """A behavior-registry key without memory addresses (comparable across interpreters)."""
+    if isinstance(k, tuple):
+        return "(" + ", ".join(stable_key(e) for e in k) + ")"
+    if isinstance(k, str):
+        return repr(k)
+    name = getattr(k, "__qualname__", None) or getattr(k, "__name__", None)
+    if name is not None:
+        return f"{getattr(k, '__module__', '')}.{name}"
+    return repr(k)
+
+
 def digest(x):
     """Bit-level digest of an operand: class, coordinate system / dtype / form, shape, raw bytes."""
     import awkward as ak
@@ -43,7 +55,7 @@ def digest(x):
             hb.update(k.encode())
             hb.update(numpy.asarray(bufs[k]).tobytes())
         return "|".join([type(x).__name__, str(ak.type(x)), form.to_json(), str(length), hb.hexdigest()[:20],
-                         "behavior:" + ("none" if x.behavior is None else _h(repr(sorted(repr(k) for k in x.behavior.keys())).encode()) + f":{len(x.behavior)}")])
+                         "behavior:" + ("none" if x.behavior is None else _h(repr(sorted(stable_key(k) for k in x.behavior.keys())).encode()) + f":{len(x.behavior)}")])
     if isinstance(x, numpy.dtype):
         return "dtype|" + repr(x.descr) + repr(x.names)
     if isinstance(x, dict):
@@ -58,7 +70,7 @@ def fingerprint():
 
     filt = _h(repr([(f[0], str(f[1]), getattr(f[2], "__name__", str(f[2])), str(f[3]), f[4]) for f in warnings.filters]).encode())
     po = numpy.get_printoptions()
-    keys = sorted(repr(k) for k in ak.behavior.keys())
+    keys = sorted(stable_key(k) for k in ak.behavior.keys())
     return {"err": json.dumps(numpy.geterr(), sort_keys=True),
             "filters": filt,
             "printopts": _h(json.dumps({k: repr(v) for k, v in sorted(po.items())}).encode()),
@@ -77,6 +89,32 @@ def extra_calls():
 
     def add(name, build, call, backend):
         items.append({"name": name, "build": build, "call": call, "backend": backend})
+
+    # NumPy arrays whose columns have different dtypes (int64 next to float64, float32 next to float64) and all-integer ones:
+    # a result's dtype must be built from this call's components, whatever was computed before
+    def mk_mixed(kind, n):
+        def build():
+            cols = {"x": numpy.array([1, 2, 3]), "y": numpy.array([0.5, 1.5, 2.5]), "z": numpy.array([2, 4, 6]), "t": numpy.array([10.5, 11.5, 12.5])}
+            if kind == "allint":
+                cols = {k: numpy.array([1, 2, 3]) + j for j, k in enumerate("xyzt")}
+            if kind == "f32":
+                cols["x"] = cols["x"].astype(numpy.float32)
+            names = ["x", "y", "z", "t"][:n]
+            return vector.array({k: cols[k] for k in names}), vector.array({k: cols[k] for k in names})
+        return build
+
+    for n in (2, 3, 4):
+        for kind in ("allint", "mixed", "f32", "allint"):
+            add(f"mixed-dtype-add:{kind}", mk_mixed(kind, n), lambda A, B: A + B, "np")
+            add(f"mixed-dtype-scale:{kind}", mk_mixed(kind, n), lambda A, B: A * 1.5, "np")
+            add(f"mixed-dtype-rotateZ:{kind}", mk_mixed(kind, n), lambda A, B: A.rotateZ(0.5), "np")
+            add(f"mixed-dtype-sub:{kind}", mk_mixed(kind, n), lambda A, B: A.subtract(B), "np")
+            if n > 2:
+                add(f"mixed-dtype-rotateX:{kind}", mk_mixed(kind, n), lambda A, B: A.rotateX(0.5), "np")
+                add(f"mixed-dtype-to_Vector2D:{kind}", mk_mixed(kind, n), lambda A, B: A.to_Vector2D(), "np")
+            if n > 3:
+                add(f"mixed-dtype-boostZ:{kind}", mk_mixed(kind, n), lambda A, B: A.boostZ(beta=0.25), "np")
+                add(f"mixed-dtype-to_Vector3D:{kind}", mk_mixed(kind, n), lambda A, B: A.to_Vector3D(), "np")
 
     for sig in [("xy", "z", "t"), ("rhophi", "eta", "tau"), ("rhophi",), ("xy", "theta")]:
         for flavor in ("generic", "momentum"):
@@ -183,7 +221,24 @@ def catalogue(type_cases, limit=None, salt="c", by_dim=True):
             else:
                 rest.append(it)
         step = len(rest) / float(limit)
-        items = list(must.values()) + [rest[int(i * step)] for i in range(limit)]
+        # the must-items once more in coordinate-system pairings that cover every temporal / azimuthal combination of the two
+        # operands (kernels are specialised per pairing: an in-place update may sit in exactly one of them)
+        covering = []
+        PAIR = {4: [(("xy", "z", "t"), ("rhophi", "eta", "tau")), (("rhophi", "theta", "tau"), ("xy", "z", "t")),
+                    (("xy", "eta", "tau"), ("rhophi", "z", "tau")), (("rhophi", "z", "t"), ("xy", "theta", "t"))],
+                3: [(("xy", "z"), ("rhophi", "eta")), (("rhophi", "theta"), ("xy", "z")), (("xy", "eta"), ("xy", "theta"))],
+                2: [(("xy",), ("rhophi",)), (("rhophi",), ("xy",))]}
+        if by_dim:
+            for it in must.values():
+                da = it["tc"]["a"][2]
+                db = it["tc"]["b"][2] if it["tc"]["b"][0] != "none" else 0
+                for pa, pb in PAIR[da]:
+                    sb = None
+                    if db:
+                        sb = pb if db == da else [q[1] for q in PAIR[db]][PAIR[da].index((pa, pb)) % len(PAIR[db])]
+                    if (pa, sb) != (it["sa"], it["sb"]):
+                        covering.append(dict(it, sa=pa, sb=sb))
+        items = list(must.values()) + covering + [rest[int(i * step)] for i in range(limit)]
     # every method once more with a poisoned object operand (first, and for binary methods also second):
     # the exception is raised inside the compute layer, the process state must still be restored
     seen, poisoned = set(), []
@@ -429,10 +484,7 @@ def thread_hammer(type_cases, nthreads=8, reps=4, with_poisoned=True):
     return mismatches + pm, len(items) + pitems, len(items) * nthreads * reps + pcalls
 
 
-def order_run(type_cases, limit=1):
-    """No call leaves a trace that a later call can see: the catalogue (plus the same stored numbers offered in every
-    coordinate system, which is what a value-keyed cache would confuse) is executed forwards and then backwards in one
-    process; every call must return what it returned the first time."""
+def _order_items(type_cases, limit):
     import vector
 
     items = [it for it in catalogue(type_cases, limit, salt="order") if not it["name"].startswith("poisoned:")]
@@ -449,19 +501,47 @@ def order_run(type_cases, limit=1):
                                  ("same-numbers:rho+eta", lambda A, B: (A.rho, A.phi, A.x)), ("same-numbers:to_xy", lambda A, B: A.to_xy()),
                                  ("same-numbers:repr", lambda A, B: repr(A)), ("same-numbers:hash-free-eq", lambda A, B: A == A)):
                     items.append({"name": nm, "build": mk, "call": call, "backend": "obj"})
+    return items
+
+
+def _order_worker(args):
+    """One fresh interpreter: the call list in the given order (optionally twice)."""
+    type_cases, limit, order = args
+    items = _order_items(type_cases, limit)
+    idx = list(range(len(items)))
+    if order == "backward":
+        idx.reverse()
+    elif order == "interleaved":
+        idx = idx[1::2] + idx[0::2]
     with warnings.catch_warnings():
         warnings.simplefilter("ignore")
-        _, first = run_session(items, tid=300, thread="forward", with_results=True)
-        _, back = run_session(list(reversed(items)), tid=301, thread="backward", with_results=True)
-        _, again = run_session(items, tid=302, thread="forward-again", with_results=True)
-    back = list(reversed(back))
+        _, res = run_session([items[i] for i in idx], tid=300, thread=order, with_results=True)
+        _, again = run_session([items[i] for i in idx], tid=301, thread=order + "-again", with_results=True)
+    out = [None] * len(items)
+    out2 = [None] * len(items)
+    for pos, i in enumerate(idx):
+        out[i], out2[i] = res[pos], again[pos]
+    return order, out, out2, [(it["name"], it["backend"]) for it in items]
+
+
+def order_run(type_cases, limit=1):
+    """No call leaves a trace that a later call can see: the catalogue (plus the same stored numbers offered in every
+    coordinate system and arrays of mixed dtypes - what a value- or dtype-keyed cache would confuse) is executed in three
+    fresh interpreters in three different orders, twice each; every call must return the same thing in all six."""
+    import multiprocessing as mp
+
+    with mp.get_context("spawn").Pool(3) as pool:
+        outs = pool.map(_order_worker, [(type_cases, limit, o) for o in ("forward", "backward", "interleaved")])
+    ref = next(o for o in outs if o[0] == "forward")
+    names = ref[3]
     mism = []
-    for j, it in enumerate(items):
-        for label, other in (("backward", back[j]), ("second forward pass", again[j])):
-            if other != first[j] and len(mism) < 50:
-                mism.append({"thread": -2, "call": it["name"], "backend": it["backend"], "what": "result depends on the calls made before it (" + label + ")",
-                             "got": other[:200], "want": first[j][:200]})
-    return mism, len(items)
+    for order, res, again, _ in outs:
+        for label, other in ((order, res), (order + ", second pass", again)):
+            for j, d in enumerate(other):
+                if d != ref[1][j] and len(mism) < 50:
+                    mism.append({"thread": -2, "call": names[j][0], "backend": names[j][1],
+                                 "what": "result depends on the calls made before it (order: " + label + ")", "got": d[:200], "want": ref[1][j][:200]})
+    return mism, len(names)
 
 
 def thread_params(nthreads=8, reps=4):
